@@ -170,7 +170,15 @@ func (e *Env) RunJS(dir string, p Program, v Variant) (ref.Outcome, gjs.Result, 
 		return ref.Outcome{End: "builderror"}, res, out
 	}
 	atomic.AddInt64(&e.Executions, 1)
-	r, err := e.Nodes.Run(jsx.Req{Script: out, Globals: p.Globals, FifoTimers: true, ContextScript: p.ContextScript})
+	req := jsx.Req{Script: out, Globals: p.Globals, FifoTimers: true, ContextScript: p.ContextScript}
+	r, err := e.Nodes.Run(req)
+	if err != nil && strings.Contains(err.Error(), "node died") {
+		// the JavaScript engine itself gave up (typically out of memory in a runaway loop): only a second,
+		// identical death counts as the program's behaviour
+		if _, err2 := e.Nodes.Run(req); err2 != nil && strings.Contains(err2.Error(), "node died") {
+			return ref.Outcome{End: "engine-crash"}, res, out
+		}
+	}
 	if err != nil {
 		e.harness("node runner: " + err.Error())
 		return ref.Outcome{End: "harness"}, res, out
